@@ -62,6 +62,28 @@ theorem equals_spec_hierarchy (hv : VeqEquiv veq) (s : Bool) (a b : IH ν δ κ 
   rw [IH.equals_iff veq (plainOpts s) a b wa wb, IH.Spec, equals_spec_hierarchy_rows hv s _ _ ca cb]
   simp [plainOpts]
 
+/-- The `equal_pairs` cache of `IndexLevel.equals` is sound: with identities that identify the
+    Index objects (`IdSound`: same id, same object — sharing as built by `from_product` allowed),
+    the walk as coded — pairs `(id(level_self.index), id(level_other.index))` found in the cache
+    skip `index.equals` — answers exactly what the cache-free walk answers, so every theorem about
+    `Level.equals` / `IndexHierarchy.equals` (`equals_spec_hierarchy`, …) holds for the coded loop. -/
+theorem equals_cache_sound (o : Opts) (ida idb : Level ν δ κ α → Nat) (ha : IdSound ida) (hb : IdSound idb)
+    (a b : Level ν δ κ α) : Level.equalsC veq ida idb a b o = Level.equals veq a b o :=
+  Level.equalsC_eq veq o ida idb ha hb a b
+
+/-- Why both components of the key matter: if the second component does not identify other's
+    Index object (here: constant, as when the pair is keyed on self's object only), the cached
+    walk accepts [('a',1),('a',3),('b',1),('b',2)] against the product ('a','b') x (1,2) — the last
+    branch seeds the cache, the differing first branch is skipped. -/
+theorem equals_cache_unsound_ids_counterexample :
+    let leaf (l : List Nat) : Level Unit Unit Unit Nat := .mk ⟨l.map .val, (), (), ()⟩ true [] 0 ()
+    let a : Level Unit Unit Unit Nat := .mk ⟨[.val 10, .val 11], (), (), ()⟩ false [leaf [1, 2], leaf [1, 2]] 0 ()
+    let b : Level Unit Unit Unit Nat := .mk ⟨[.val 10, .val 11], (), (), ()⟩ false [leaf [1, 3], leaf [1, 2]] 0 ()
+    -- ids: 0 for the root, 1 for every leaf (sound for `a`, whose leaves are one object; not for `b`)
+    Level.equals (· == ·) a b {} = false ∧
+    Level.equalsC (· == ·) (fun x => if x.leaf then 1 else 0) (fun x => if x.leaf then 1 else 0) a b {} = true := by
+  decide
+
 /-- the flat case spelled out -/
 theorem equals_spec_index (o : Opts) (a b : Idx ν δ κ α) :
     a.equals veq b o = true ↔
